@@ -52,6 +52,9 @@ def expected(doc, root_b64, now_ts):
     return out
 
 
+IMPOSTOR_ROOT = [None]
+
+
 class FakeDatetime:
     now_value = None
 
@@ -82,9 +85,11 @@ def run(ctx):
     _time.tzset()
     try:
         from cryptography.hazmat.primitives.asymmetric import ec
+        irk = v2.new_key(rng)
+        IMPOSTOR_ROOT[0] = v2.b64der(v2.make_cert(rng, "SGX Root CA", "SGX Root CA", irk, irk))
         for i in range(n):
             depth = 3 if i % 3 else 2
-            doc, root_b64, sec = v2.genuine(rng, depth=depth)
+            doc, root_b64, sec = v2.genuine(rng, depth=depth, auth_len=(0 if i == 1 else None))
             variants = [("genuine", doc, root_b64, v2.NOW)] + v2.corruptions(rng, doc, root_b64, sec)
             if i % 2 == 0:
                 d384, r384, _ = v2.genuine(rng, depth=3, qe_curve=ec.SECP384R1())
@@ -96,7 +101,16 @@ def run(ctx):
                 def root_factory(rb64=rb64):
                     return HSMCertificateV2ElementX509({"name": "sgx_root", "message": rb64,
                                                         "signed_by": "sgx_root"})
-                obs = certs.impl_load_validate(d, root_factory, tmp, with_resave=False)
+                # history: every second variant is validated on an object that was first validated
+                # against another root carrying the same name (the genuine one for the wrong-root variant)
+                prior = None
+                if (len(terms) + res["evaluations"]) % 2 == 1 or label == "wrong-root":
+                    other = root_b64 if label == "wrong-root" else IMPOSTOR_ROOT[0]
+
+                    def prior(other=other):
+                        return HSMCertificateV2ElementX509({"name": "sgx_root", "message": other,
+                                                            "signed_by": "sgx_root"})
+                obs = certs.impl_load_validate(d, root_factory, tmp, with_resave=False, prior_root_factory=prior)
                 res["evaluations"] += 1
                 res["distinct"] += 1
                 kind = label.split("-")[0]
